@@ -1,4 +1,5 @@
 import PyamgV.Props.Restate
+import PyamgV.Proofs.ExtPyFlag
 import PyamgV.Proofs.C05Sym
 import PyamgV.Proofs.Pd
 import PyamgV.Proofs.GsStrict
@@ -465,5 +466,63 @@ Gauss–Seidel … -/
 restate flag_cycle_spd_example := PyamgV.C05YEx.example_flag_cycle_spd
 /-- … which has vectors of non-zero energy -/
 restate flag_cycle_spd_example_nonzero := PyamgV.C05YEx.example_energy_ne
+
+/-! ## E31 -- `_same_parameters` and the flag computation, translated from the source (`harness/py2lean.py`)
+
+`PyamgV.Generated.PyLogic.smoothing_same_parameters` / `smoothing_change_smoothers_flag` are executable Lean
+definitions regenerated from the Python AST of pyamg/relaxation/smoothing.py on every run (the second one is
+the backward slice of `ml.symmetric_smoothing` in `change_smoothers`); the driver runs them
+(`ext_py_call`) on every row of the decision table and the check compares them with the real functions.
+The theorems tie them to the hand-written model `PyamgV.C05.flag` the rest of this file is about. -/
+section e31
+open PyamgV.ExtPy PyamgV.Generated.PyLogic PyamgV.ExtPyFlag
+
+/-- `_same_parameters(kw1, kw2)` is `True` iff every key but `'sweep'` is absent on both sides or present
+with `==` values -/
+restate py_same_parameters_iff := PyamgV.ExtPySame.same_true_iff
+/-- ... so it ignores `'sweep'` (changed / added / removed on either side) ... -/
+restate py_same_parameters_ignores_sweep := PyamgV.ExtPySame.same_ignores_sweep
+/-- ... and nothing else: any other key that differs makes it `False` -/
+restate py_same_parameters_detects := PyamgV.ExtPySame.same_detects
+/-- reflexive and symmetric on well-formed keyword dictionaries (distinct keys; any nesting of values) -/
+restate py_same_parameters_refl := PyamgV.ExtPySame.same_refl_wf
+restate py_same_parameters_symm := PyamgV.ExtPySame.same_symm_wf
+/-- Python's `==` on the value universe is reflexive and symmetric -/
+restate py_eq_refl := PyamgV.ExtPy.pyEq_refl
+restate py_eq_symm := PyamgV.ExtPy.pyEq_symm
+/-- on scalar option values the generated `_same_parameters` is the model's `sameParameters` -/
+restate py_same_parameters_model := PyamgV.ExtPyFlag.same_model
+/-- the per-level test of the generated code (closed formula `levelOkPy`) is the model's `levelOk` -/
+restate py_level_test_is_model := PyamgV.ExtPyFlag.levelOkPy_eq_model
+/-- the generated flag computation as a formula: all examined levels pass the per-level test; which levels
+are examined and which entry a level gets follows the three loops of the source -/
+restate py_flag_formula := PyamgV.ExtPyFlag.flag_core
+/-- **REFINEMENT `Generated.flag = C05.flag`** wherever the model says `change_smoothers` returns -/
+restate py_flag_refines_model := PyamgV.ExtPyFlag.flag_refines_model
+/-- generated flag `True` ⇒ the model's symmetric-pair test holds for the pair installed on EVERY level -/
+restate py_flag_true_levels := PyamgV.ExtPyFlag.flag_true_levels
+/-- single specifications stand for one-entry lists; other types raise `ValueError` -/
+restate py_flag_single_pre := PyamgV.ExtPyFlag.flag_single_pre
+restate py_flag_single_post := PyamgV.ExtPyFlag.flag_single_post
+restate py_flag_rejects := PyamgV.ExtPyFlag.flag_rejects_pre
+/-- the tables of the generated code are the model's tables -/
+restate py_krylov_table := PyamgV.ExtPyFlag.krylov_in
+restate py_symmetric_table := PyamgV.ExtPyFlag.symmetric_in
+
+-- non-vacuity, evaluated by the kernel on the generated definition: forward / backward Gauss-Seidel keeps the
+-- flag on three levels; a list whose second entry has no partner loses it
+example : smoothing_change_smoothers_flag (.list [.none, .none, .none])
+    (.tuple [.str "gauss_seidel", .dict [("sweep", .str "forward")]])
+    (.tuple [.str "gauss_seidel", .dict [("sweep", .str "backward")]]) = .ok (.bool true) := by rfl
+example : smoothing_change_smoothers_flag (.list [.none, .none, .none])
+    (.list [.str "jacobi", .tuple [.str "gauss_seidel", .dict [("sweep", .str "forward")]]])
+    (.str "jacobi") = .ok (.bool false) := by rfl
+example : smoothing_same_parameters (.dict [("iterations", .int 2), ("sweep", .str "forward")])
+    (.dict [("sweep", .str "backward"), ("iterations", .bool false), ("withrho", .none)]) = .ok (.bool false) := by rfl
+example : smoothing_same_parameters (.dict [("iterations", .int 2), ("sweep", .str "forward")])
+    (.dict [("sweep", .str "backward"), ("iterations", .int 2)]) = .ok (.bool true) := by rfl
+example : PyamgV.C05.flag (cfgs [(some "gauss_seidel", [("sweep", .str "forward")])])
+    (cfgs [(some "gauss_seidel", [("sweep", .str "backward")])]) 2 = some true := by decide
+end e31
 
 end PyamgV.Props.C05
